@@ -21,9 +21,6 @@ package main
 
 import (
 	"bytes"
-	"flag"
-	"os"
-	"runtime/pprof"
 	"context"
 	"crypto/ecdsa"
 	"crypto/ed25519"
@@ -33,8 +30,11 @@ import (
 	"crypto/sha512"
 	"crypto/tls"
 	"crypto/x509"
+	"flag"
 	"fmt"
 	"math/big"
+	"os"
+	"runtime/pprof"
 	"sort"
 	"strings"
 	"sync"
@@ -784,13 +784,13 @@ const (
 var verdictNames = [3]string{"reject", "accept", "either"}
 
 type modelResult struct {
-	verdict  int
-	why      string
-	badSlot  string // kind of the first invalid slot
-	badSch   int32  // scheme number found in the first invalid slot (or -100)
-	exempt   bool
-	bodyOK   bool // outermost layer carries a valid body signature
-	chainOK  bool
+	verdict int
+	why     string
+	badSlot string // kind of the first invalid slot
+	badSch  int32  // scheme number found in the first invalid slot (or -100)
+	exempt  bool
+	bodyOK  bool // outermost layer carries a valid body signature
+	chainOK bool
 }
 
 func stripUnknown(m protoreflect.Message) {
@@ -1014,12 +1014,12 @@ type tcase struct {
 }
 
 type world struct {
-	r       *ev.Run
-	mu      sync.Mutex
-	classes map[string]int64
-	viols   map[string]int64
+	r        *ev.Run
+	mu       sync.Mutex
+	classes  map[string]int64
+	viols    map[string]int64
 	accepted map[string]bool
-	builds  sync.Map
+	builds   sync.Map
 }
 
 func (w *world) built(c config) *built {
@@ -1285,7 +1285,7 @@ func main() {
 				return true
 			})
 		} else {
-			for s := int32(0); s < 4 && L < 3; s++ { // uniform chains of every scheme (1 and 2 layers)
+			for s := int32(0); s < 4; s++ { // uniform chains of every scheme
 				c := make([]int32, L)
 				for i := range c {
 					c[i] = s
